@@ -113,9 +113,14 @@ def _replay(case) -> dict:
         else:
             out = [engine.api(loader.align, templates[0], **kw).molecules]
         order = [[0, 1, 2]]
-    elif drv in ("group_list", "group_map", "group_map_hetero"):
+    elif drv in ("group_list", "group_map", "group_map_hetero", "group_map_factory"):
         grp = loader.groupby("g")
-        if drv == "group_map_hetero":
+        if drv == "group_map_factory":
+            # ONE model factory (Model.with_params) serves both groups, whose template lists hold the same images in
+            # OPPOSITE order: each group's labels refer to its own list
+            targ = {0: templates, 1: templates[::-1]}
+            kw = dict(max_shifts=(MAX_SHIFT,) * 3, alignment_model=cls.with_params(rotations=rots))
+        elif drv == "group_map_hetero":
             # the groups search template lists of DIFFERENT lengths: one group gets an extra decoy template at the end
             longer = templates + [asym_template(T)]
             targ = {0: templates, 1: longer} if j % 2 == 0 else {0: longer, 1: templates}
@@ -144,6 +149,8 @@ def _replay(case) -> dict:
                 continue
             shift = [float(feats["align-dz"][r]), float(feats["align-dy"][r]), float(feats["align-dx"][r])]
             erot = Rotation.from_matrix(np.array(case["rots"][kk], dtype=float))
+            if drv == "group_map_factory" and src == 1:      # row 1 is the molecule of group 1 (reversed template list)
+                jj = T - 1 - jj
             check(lab, quats[r], shift, drv, row=src, exp=(jj, erot, dd))
     return dict(failures=failures)
 
